@@ -15,12 +15,13 @@ func ClearOp(ty int) Op                    { return Op{K: Clear, Ty: ty} }
 func CountOp(ty int) Op                    { return Op{K: Count, Ty: ty} }
 
 var (
-	plain  = evt.SubOpts{}
-	once   = evt.SubOpts{Once: true}
-	async  = evt.SubOpts{Async: true}
-	filt   = evt.SubOpts{Filter: 1}
-	onceAs = evt.SubOpts{Once: true, Async: true}
-	onceF  = evt.SubOpts{Once: true, Filter: 1}
+	plain    = evt.SubOpts{}
+	once     = evt.SubOpts{Once: true}
+	async    = evt.SubOpts{Async: true}
+	filt     = evt.SubOpts{Filter: 1}
+	onceAs   = evt.SubOpts{Once: true, Async: true}
+	onceF    = evt.SubOpts{Once: true, Filter: 1}
+	asyncSeq = evt.SubOpts{Async: true, Sequential: true}
 )
 
 // Curated programs aimed at the windows the property names.
@@ -52,5 +53,15 @@ func Curated() []*Prog {
 			Tasks: [][]Op{{PubOp(0)}, {UnsubOp(0, 0)}, {SubOp(0, 2, plain)}, {PubOp(0)}}},
 		{Name: "clear-vs-once-vs-subscribe-4", Pre: []Op{SubOp(0, 0, once), SubOp(1, 0, plain)},
 			Tasks: [][]Op{{PubOp(0)}, {ClearOp(0)}, {SubOp(0, 1, plain)}, {PubOp(1)}}},
+		// asynchronous handlers that queue (Async+Sequential) under concurrent publishers:
+		// the registry is untouched, the delivery path is not
+		{Name: "async-sequential-two-publishers", Pre: []Op{SubOp(0, 0, asyncSeq), SubOp(0, 1, plain)},
+			Tasks: [][]Op{{PubOp(0), PubOp(0)}, {PubOp(0)}}},
+		{Name: "async-sequential-three-publishers", Pre: []Op{SubOp(0, 0, asyncSeq)},
+			Tasks: [][]Op{{PubOp(0)}, {PubOp(0)}, {PubOp(0), CountOp(0)}}},
+		// a Subscribe in flight while the type becomes (or is found) empty
+		{Name: "subscribe-while-last-handler-leaves", Pre: []Op{SubOp(0, 0, plain)},
+			Tasks: [][]Op{{SubOp(0, 1, plain), PubOp(0)}, {UnsubOp(0, 0)}, {PubOp(0)}}},
+		{Name: "subscribe-while-publishing-to-nobody", Tasks: [][]Op{{SubOp(0, 0, plain), PubOp(0)}, {PubOp(0)}, {SubOp(0, 1, filt), PubOp(0)}}},
 	}
 }
